@@ -3,7 +3,7 @@ CONSTANTS
   Orders <- OrdersAll
   Dts <- DtsT
   Targets <- TargT
-  MaxTs = 3
+  MaxTs = 1
   PublicQueue = FALSE
   LeftRenormSite = 0
   FlipWrap = TRUE
